@@ -51,8 +51,44 @@ def s_interp2():
         "end": gens.pose2(t_hi=6), "s": st.lists(s_values(), min_size=1, max_size=4), "se": st.booleans()})
 
 
+def s_intdtype():
+    q = st.integers(-2, 2)
+    return st.fixed_dictionaries({"kind": st.just("intdtype"), "k0": q, "k1": q, "t0": st.lists(st.integers(-9, 9), min_size=3, max_size=3),
+                                  "t1": st.lists(st.integers(-9, 9), min_size=3, max_size=3), "s": s_values(),
+                                  "int_start": st.booleans(), "int_end": st.booleans(), "has_start": st.booleans(), "dim": st.sampled_from([2, 3])})
+
+
+def _intdtype(case):
+    """poses whose entries are all integers (quarter turns, integer translations) given as integer-typed arrays"""
+    b = L.base
+    dim, s = case["dim"], case["s"]
+    c = Checker("intdtype", dim=dim, int_start=case["int_start"], int_end=case["int_end"])
+
+    def pose(k, t):
+        R2 = np.round(refs.rot2(k * PI / 2)) + 0.0       # + 0.0 turns -0.0 into +0.0 (atan2 distinguishes them)
+        if dim == 2:
+            return refs.rt(R2, np.array(t[:2], dtype=float))
+        R3 = np.eye(3)
+        R3[:2, :2] = R2
+        return refs.rt(R3, np.array(t, dtype=float))
+    T0f, T1f = pose(case["k0"], case["t0"]), pose(case["k1"], case["t1"])
+    T0 = T0f.astype(int) if case["int_start"] else T0f.copy()
+    T1 = T1f.astype(int) if case["int_end"] else T1f.copy()
+    f = b.trinterp2 if dim == 2 else b.trinterp
+    start = T0 if case["has_start"] else None
+    ok1, got = c.lib("int", f, start, T1, s)
+    ok2, want = c.lib("float", f, (T0f.copy() if case["has_start"] else None), T1f.copy(), s)
+    if ok1 and ok2:
+        c.eq("int=float", got, want, 1e-12, max(1.0, float(np.max(np.abs(np.asarray(want, dtype=float))))))
+        res = refs.se_residual(np.asarray(got, dtype=float))
+        c.true("valid", res <= 1e-9, "interpolation of integer-typed poses leaves the group: residual %.3g" % res)
+    c.eq("operand/end", T1, T1f, 0)
+    c.eq("operand/start", T0, T0f, 0)
+    return c.out
+
+
 def check_case(case):
-    return {"interp3": _interp3, "interp2": _interp2}[case["kind"]](case)
+    return {"interp3": _interp3, "interp2": _interp2, "intdtype": _intdtype}[case["kind"]](case)
 
 
 def _rot_check(c, site, R0, Rs_list, s_list, k, th, shortest_required):
@@ -250,6 +286,8 @@ def _interp2(case):
 
 def classify(case):
     k = case["kind"]
+    if k == "intdtype":
+        return {"kind:intdtype": True, "nontrivial": bool(case["int_start"] or case["int_end"])}
     lab = {"kind:" + k: True, "vector_s": len(case["s"]) > 1,
            "s_near_end": any(0 < s < 1e-9 or 0 < 1 - s < 1e-9 for s in case["s"]), "s_is_end": any(s in (0.0, 1.0) for s in case["s"]),
            "no_start": not case["has_start"]}
@@ -268,4 +306,5 @@ def subchecks(tier):
     return [
         Sub("interp3", strategy=s_interp3(), n=(300, 12000), shards=(10, 16)),
         Sub("interp2", strategy=s_interp2(), n=(300, 8000), shards=(4, 16)),
+        Sub("intdtype", strategy=s_intdtype(), n=(300, 4000), shards=(2, 8)),
     ]
